@@ -55,6 +55,9 @@ Inductive ikind :=
 | IOneof (name : bytes)
 | IEnum (name : bytes).
 
+(* a field of an inline (anonymous) object / an option of an inline oneof: simple types only *)
+Record sfield := mkSF { sf_name : bytes; sf_kind : ikind; sf_required : bool; sf_optional : bool }.
+
 Inductive fkind :=
 | KScalar (ptype : N) (j5kind : bytes)
 | KObject (name : bytes)                  (* object:<Name>, a reference to a schema of this package *)
@@ -66,7 +69,12 @@ Inductive fkind :=
   (* a message of another (always imported) package: timestamp -> google.protobuf.Timestamp,
      date -> j5.types.date.v1.Date, decimal -> j5.types.decimal.v1.Decimal, any -> j5.types.any.v1.Any *)
 | KArray (item : ikind)                   (* array:<item>: a repeated field *)
-| KMap (value : ikind).                   (* map:<value>: a repeated field of a nested <Name>Entry message *)
+| KMap (value : ikind)                    (* map:<value>: a repeated field of a nested <Name>Entry message *)
+(* inline (anonymous) schemas: `field x object { ... }` / `oneof { ... }` / `enum { ... }` define a type
+   nested in the containing message, named ToCamel(field name) *)
+| KInlineObject (fields : list sfield)
+| KInlineOneof (options : list sfield)
+| KInlineEnum (options : list bytes).
 
 Record ufield := mkU { uf_name : bytes; uf_kind : fkind; uf_required : bool; uf_optional : bool }.
 (* a schema declared inside the entity block (entity.Schemas: object / oneof / enum) *)
@@ -86,8 +94,9 @@ Record method := mkM {
   md_response : option (list ufield) }.       (* None: raw response, google.api.HttpBody *)
 Record command := mkC { c_name : option bytes; c_base : option bytes; c_methods : list method }.
 Record summary := mkS { s_name : bytes; s_fields : list ufield }.
-Record query := mkQ { q_events_in_get : bool; q_default_status : list bytes }.
-Record entity := mkE {
+(* q_list_settings: the query block carries listRequest / eventsListRequest settings *)
+Record query := mkQ { q_events_in_get : bool; q_default_status : list bytes; q_list_settings : bool }.
+Record entity := mkE12 {
   e_pkg : bytes;                              (* dotted package name *)
   e_name : bytes;
   e_base_url : bytes;                         (* "" = default *)
@@ -98,7 +107,10 @@ Record entity := mkE {
   e_commands : list command;
   e_summaries : list summary;
   e_query : option query;
-  e_schemas : list eschema }.
+  e_schemas : list eschema;
+  e_status_num : list N }.                   (* the `number` a status declares, in order; 0 / missing = none *)
+(* a declaration whose statuses declare no numbers *)
+Notation mkE p n b k d s ev c su q sc := (mkE12 p n b k d s ev c su q sc []) (only parsing).
 
 (* ---- what is emitted ------------------------------------------------------- *)
 Inductive otype :=
@@ -107,15 +119,21 @@ Inductive otype :=
 | TOneof (pkg name : bytes)
 | TEnum (pkg name : bytes)
 | TExt (type_name : bytes) (j5kind : bytes)   (* a message type given by its full name *)
-| TMap (value : otype).             (* map<string, value>: the field refers to its own entry message *)
+| TMap (value : otype)              (* map<string, value>: the field refers to its own entry message *)
+| TNested (name : bytes) (kind : N). (* a type nested in the containing message: 0 object 1 oneof 2 enum *)
 
 (* a property; its field number is its 1-based position (mapProperties) *)
-Record ofield := mkF10 {
+(* the definition an inline field carries: kind (as TNested), fields / options, enum options *)
+Record inline_def := mkInl { il_kind : N; il_fields : list sfield; il_options : list bytes }.
+
+Record ofield := mkF11 {
   f_json : bytes; f_type : otype; f_repeated : bool; f_required : bool; f_flatten : bool;
   f_primary : bool; f_tenant : option bytes;
   f_filter : option (list bytes);     (* list filtering: Some defaults = filterable *)
   f_foreign : option (bytes * bytes); (* (j5.ext.v1.key).foreign_key {package, entity} *)
-  f_optional : bool }.                (* proto3_optional *)
+  f_optional : bool;                  (* proto3_optional *)
+  f_inline : option inline_def }.     (* Some: the field's type is defined inline, nested in the message *)
+Notation mkF10 j t r q fl p te fi fo o := (mkF11 j t r q fl p te fi fo o None) (only parsing).
 (* the fields entity.go itself creates have no foreign key and are never optional *)
 Definition mkF j t r q fl p te fi : ofield := mkF10 j t r q fl p te fi None false.
 
@@ -170,14 +188,28 @@ Definition otype_of_item (i : ikind) : otype :=
   | IEnum n => TEnum [] n
   end.
 
+Definition of_sfield (s : sfield) : ofield :=
+  mkF10 (sf_name s) (otype_of_item (sf_kind s)) false (sf_required s) false false None None None (sf_optional s).
+
 Definition of_ufield (u : ufield) : ofield :=
   match uf_kind u with
+  | KInlineObject fs =>
+      mkF11 (uf_name u) (TNested (to_camel (uf_name u)) 0) false (uf_required u) false false None None None
+            (uf_optional u) (Some (mkInl 0 fs []))
+  | KInlineOneof fs =>
+      mkF11 (uf_name u) (TNested (to_camel (uf_name u)) 1) false (uf_required u) false false None None None
+            (uf_optional u) (Some (mkInl 1 fs []))
+  | KInlineEnum os =>
+      mkF11 (uf_name u) (TNested (to_camel (uf_name u)) 2) false (uf_required u) false false None None None
+            (uf_optional u) (Some (mkInl 2 [] os))
   | KExt tn k =>
       mkF10 (uf_name u) (TExt tn k) false (uf_required u) false false None None None (uf_optional u)
+  (* an explicitly optional array / map is NOT proto3_optional (fix d536c9b, buildProperty: a repeated
+     field cannot be the member of a synthetic oneof); the optional+required clash is still checked *)
   | KArray i =>
-      mkF10 (uf_name u) (otype_of_item i) true (uf_required u) false false None None None (uf_optional u)
+      mkF10 (uf_name u) (otype_of_item i) true (uf_required u) false false None None None false
   | KMap v =>
-      mkF10 (uf_name u) (TMap (otype_of_item v)) true (uf_required u) false false None None None (uf_optional u)
+      mkF10 (uf_name u) (TMap (otype_of_item v)) true (uf_required u) false false None None None false
   | KScalar pt k =>
       mkF10 (uf_name u) (TScalar pt k) false (uf_required u) false false None None None (uf_optional u)
   | KObject n =>
@@ -191,8 +223,15 @@ Definition of_ufield (u : ufield) : ofield :=
             foreign (uf_optional u)
   end.
 (* buildProperty: "cannot be both required and optional" (a primary key is required) *)
+Definition sfield_ok (s : sfield) : bool := negb (sf_optional s && sf_required s).
 Definition ufield_ok (u : ufield) : bool :=
-  negb (uf_optional u && (uf_required u || match uf_kind u with KKey p _ _ => p | _ => false end)).
+  negb (uf_optional u && (uf_required u || match uf_kind u with KKey p _ _ => p | _ => false end))
+  (* the fields of an inline object / the options of an inline oneof go through buildProperty too *)
+  && match uf_kind u with
+     | KInlineObject fs => forallb sfield_ok fs
+     | KInlineOneof fs => forallb sfield_ok fs
+     | _ => true
+     end.
 Definition plain_field (name : string) (t : otype) (required : bool) : ofield :=
   mkF (bs name) t false required false false None None.
 Definition array_field (name : bytes) (t : otype) (required : bool) : ofield :=
@@ -217,16 +256,23 @@ Fixpoint number_from (i : N) (prefix : bytes) (l : list bytes) : list (bytes * N
   | [] => []
   | s :: r => (status_value_name prefix s, i) :: number_from (N.succ i) prefix r
   end.
-Definition status_values (prefix : bytes) (l : list bytes) : list (bytes * N) :=
+(* [n0]: the number the FIRST option declares (0 = none).  visitEnumNode numbers the options by
+   POSITION; a declared number is ignored, except that a first option ending in UNSPECIFIED takes
+   slot 0 only when it declares no (non-zero) number *)
+Definition status_values_n (prefix : bytes) (l : list bytes) (n0 : N) : list (bytes * N) :=
   match l with
   | s :: r =>
-      if has_suffix (bs "UNSPECIFIED") s
+      if has_suffix (bs "UNSPECIFIED") s && (n0 =? 0)
       then (status_value_name prefix s, 0) :: number_from 1 prefix r
       else (prefix ++ bs "UNSPECIFIED", 0) :: number_from 1 prefix l
   | [] => [(prefix ++ bs "UNSPECIFIED", 0)]
   end.
+Definition status_values (prefix : bytes) (l : list bytes) : list (bytes * N) := status_values_n prefix l 0.
+Definition first_status_number (e : entity) : N := match e_status_num e with n :: _ => n | [] => 0 end.
+Definition entity_status_values (e : entity) : list (bytes * N) :=
+  status_values_n (status_prefix e) (e_status e) (first_status_number e).
 Definition status_enum (e : entity) : component :=
-  CEnum (component_name e (bs "Status")) (status_values (status_prefix e) (e_status e)).
+  CEnum (component_name e (bs "Status")) (entity_status_values e).
 
 (* findStatus: the name visitEnumNode/addValue gives the status (fix 705ef70) *)
 Definition find_status (e : entity) (f : bytes) : option bytes :=
@@ -470,7 +516,16 @@ Fixpoint ref_resolves (defs : list (bool * bytes)) (t : otype) : bool :=
   | TEnum p n => lookup true p n
   | TExt _ _ => true
   | TMap v => ref_resolves defs v
+  | TNested _ _ => true
   end.
+
+(* a field resolves when its type does and, for an inline object / oneof, the types of its own fields do *)
+Definition field_resolves (defs : list (bool * bytes)) (f : ofield) : bool :=
+  ref_resolves defs (f_type f)
+  && match f_inline f with
+     | Some il => forallb (fun s => ref_resolves defs (otype_of_item (sf_kind s))) (il_fields il)
+     | None => true
+     end.
 
 Definition fields_of (cs : list component) : list ofield :=
   flat_map (fun c => match c with
@@ -479,7 +534,7 @@ Definition fields_of (cs : list component) : list ofield :=
     end) cs.
 
 Definition closed (cs : list component) : bool :=
-  forallb (fun f => ref_resolves (defined cs) (f_type f)) (fields_of cs).
+  forallb (field_resolves (defined cs)) (fields_of cs).
 
 (* every user-declared field of the declaration *)
 Definition all_ufields (e : entity) : list ufield :=
@@ -505,12 +560,22 @@ Definition command_params_ok (e : entity) : bool :=
                                                 (path_join (command_base e c) (md_path m)))
                             (c_methods c)) (e_commands e).
 
+(* list-request settings of the query block: after the walk, the conversion of the List / Events
+   method reports "listRequest is not supported on a method" (fix 985f10a, visitServiceMethodNode:
+   (j5.list.v1.list_request) extends MessageOptions; before the fix proto.SetExtension panicked).
+   Walker errors come first.  The conversion COLLECTS its errors and reports them together; the
+   harness classifies a joint message by the other error (errClass in c17.go looks for the
+   list-request text last), so the model reports the list-request error only when it is alone *)
+Definition list_settings (e : entity) : bool :=
+  match e_query e with Some q => q_list_settings q | None => false end.
+
 (* the conversion outcome (j5convert) as far as the expansion decides it *)
 Definition convert (e : entity) : outcome (list component) :=
   match expand e with
   | Ok cs => if closed cs then
                if fields_ok e then
-                 if query_params_ok e && command_params_ok e then Ok cs
+                 if query_params_ok e && command_params_ok e then
+                   if list_settings e then Err "listRequest is not supported on a method" else Ok cs
                  else Err "missing field in request"
                else Err "cannot be both required and optional"
              else Err "type not found"
@@ -552,14 +617,31 @@ Definition is_map_field (f : ofield) : bool := match f_type f with TMap _ => tru
 (* the entry messages buildProperty nests into the containing message, in field order *)
 Definition entry_names (fs : list ofield) : list bytes :=
   map (fun f => map_name (proto_name f)) (filter is_map_field fs).
+(* the types defined inline: their names, and - C++ scoping - the values of inline enums *)
+Definition inline_names (fs : list ofield) : list bytes :=
+  flat_map (fun f => match f_inline f, f_type f with
+    | Some il, TNested n _ =>
+        n :: (if il_kind il =? 2 then map fst (status_values (to_screaming_snake n ++ [95]) (il_options il)) else [])
+    | _, _ => []
+    end) fs.
 Definition fields_scope (is_oneof : bool) (fs : list ofield) : list bytes :=
   map proto_name fs
   ++ (if is_oneof then (if is_nil fs then [] else [bs "type"])
       else map (fun f => 95 :: proto_name f) (filter f_optional fs))
   ++ entry_names fs.
+(* the scopes of the inline objects / oneofs of a message *)
+Definition inline_scopes (fs : list ofield) : list (list bytes) :=
+  flat_map (fun f => match f_inline f with
+    | Some il => if il_kind il =? 2 then []
+                 else [map proto_name (map of_sfield (il_fields il))
+                       ++ (if il_kind il =? 1 then (if is_nil (il_fields il) then [] else [bs "type"])
+                           else map (fun s => 95 :: to_snake (sf_name s)) (filter sf_optional (il_fields il)))]
+    | None => []
+    end) fs.
 Definition msg_scopes (m : omsg) : list (list bytes) :=
-  (fields_scope (m_oneof m) (m_fields m) ++ map fst (m_nested m))
-  :: map (fun n => fields_scope false (snd n)) (m_nested m).
+  (fields_scope (m_oneof m) (m_fields m) ++ inline_names (m_fields m) ++ map fst (m_nested m))
+  :: inline_scopes (m_fields m)
+  ++ flat_map (fun n => (fields_scope false (snd n) ++ inline_names (snd n)) :: inline_scopes (snd n)) (m_nested m).
 Definition file_scope (file : N) (cs : list component) : list bytes :=
   flat_map (fun c => match c with
     | CMsg f m => if f =? file then [m_name m] else []
@@ -588,10 +670,41 @@ Definition compile_file (es : list entity) : outcome (list component) :=
 Definition compile (e : entity) : outcome (list component) := compile_file [e].
 
 (* what protodesc.NewFiles (structure.APIFromImage, the first step towards the client API)
-   rejects although the compiler linked it: a proto3-optional field that is repeated (an
-   optional array or map: visitObjectNode puts it into a synthetic oneof) *)
+   rejects although the compiler linked it: an open enum with two values whose names coincide once
+   the enum-name prefix is trimmed (case-insensitively, ignoring '_') and the rest is put into
+   PascalCase (protodesc validateEnumDeclarations: strs.TrimEnumPrefix / strs.EnumValueName):
+   `status Active` + `status ACTIVE`.  This is NOT judged by C17 (no clause of C17 speaks of deriving
+   the client API: it is C16's "can be turned into a client API without error"); the model predicts
+   it only so that the second observable of the tie (the client StateEntity) is compared exactly
+   when it exists.  (A proto3-optional repeated field was the second such class until fix d536c9b.) *)
+Fixpoint drop_underscores (s : bytes) : bytes :=
+  match s with c :: r => if c =? 95 then drop_underscores r else s | [] => [] end.
+(* strs.TrimEnumPrefix(s, prefix), prefix lower-case without underscores; [s0] is the whole name *)
+Fixpoint trim_enum_prefix_go (s0 s prefix : bytes) : bytes :=
+  match s with
+  | [] => s0
+  | c :: r =>
+      match prefix with
+      | [] => match drop_underscores s with [] => s0 | t => t end
+      | p :: pr => if c =? 95 then trim_enum_prefix_go s0 r prefix
+                   else if to_lower c =? p then trim_enum_prefix_go s0 r pr else s0
+      end
+  end.
+Definition trim_enum_prefix (s prefix : bytes) : bytes := trim_enum_prefix_go s s prefix.
+(* strs.EnumValueName: PascalCase, '_' dropped *)
+Fixpoint enum_value_name_go (upper_next : bool) (s : bytes) : bytes :=
+  match s with
+  | [] => []
+  | c :: r => if c =? 95 then enum_value_name_go true r
+              else (if upper_next then to_upper c else to_lower c) :: enum_value_name_go false r
+  end.
+Definition enum_value_name (s : bytes) : bytes := enum_value_name_go true s.
+Definition enum_prefix_of (name : bytes) : bytes := map to_lower (filter (fun c => negb (c =? 95)) name).
+Definition enum_accepts (name : bytes) (vs : list (bytes * N)) : bool :=
+  nodup_bytes (map (fun v => enum_value_name (trim_enum_prefix (fst v) (enum_prefix_of name))) vs).
+
 Definition client_accepts (cs : list component) : bool :=
-  forallb (fun f => negb (f_optional f && f_repeated f)) (fields_of cs).
+  forallb (fun c => match c with CEnum n vs => enum_accepts n vs | _ => true end) cs.
 
 (* error classes, as the harness classifies the real compiler's message (errClass in c17.go) *)
 Definition err_class (s : string) : N :=
@@ -602,4 +715,5 @@ Definition err_class (s : string) : N :=
   else if String.eqb s "missing field in request" then 5
   else if String.eqb s "symbol already defined" then 6
   else if String.eqb s "value is required" then 7
+  else if String.eqb s "listRequest is not supported on a method" then 8
   else 99.
